@@ -62,8 +62,8 @@ type faultCase struct {
 	Plugins       []fPlugin         `json:"plugins"`
 	Faulty        int               `json:"faulty"`
 	Ev            int               `json:"event"`
-	Kind          string            `json:"kind"` // cut | inject | close | hang | veto
-	What          string            `json:"what"` // human description of the fault point
+	Kind          string            `json:"kind"`  // cut | inject | close | hang | veto
+	What          string            `json:"what"`  // human description of the fault point
 	Fault         string            `json:"fault"` // veto | transport | hang (the model's fault_kind)
 	ReplyComplete bool              `json:"reply_complete"`
 	Msg           string            `json:"msg,omitempty"`
